@@ -8,8 +8,9 @@
    * pe parse_resources: breadth-first walk of the resource directory graph,
      no memory of visited directories, entries of a directory processed only at
      levels 0..rsrc_max_level, sub-directories queued with level + 1 only while
-     level < rsrc_deepest_level (both generated); leaves are collected to the cap
-     MAX_PE_RESOURCES (the collect-to-cap shape). *)
+     level < rsrc_deepest_level (both generated); every examined entry is counted
+     and the walk abandoned past MAX_PE_RESOURCE_DIR_ENTRIES; leaves are
+     collected to the cap MAX_PE_RESOURCES (the collect-to-cap shape). *)
 From Coq Require Import List NArith Arith Bool Lia.
 From YV Require Import Gen.ModCaps.
 Import ListNotations.
@@ -74,6 +75,14 @@ Fixpoint entries_iterated (g : rgraph) (root : nat) (k : nat) : nat :=
 
 Definition rsrc_dirs_parsed (g : rgraph) (root : nat) : nat := dirs_parsed g root rsrc_deepest_level.
 Definition rsrc_entries_iterated (g : rgraph) (root : nat) : nat := entries_iterated g root rsrc_deepest_level.
+
+(* entries examined: parse_resources increments a counter first thing for every
+   entry it examines, in walk order, and once the counter exceeds
+   MAX_PE_RESOURCE_DIR_ENTRIES clears the queue and leaves the loop.  The walk
+   examines entries one at a time, so it stops at the (cap + 1)-th examined
+   entry or examines them all: the minimum of the two counts. *)
+Definition rsrc_entries_examined (g : rgraph) (root : nat) : N :=
+  N.min (N.of_nat (rsrc_entries_iterated g root)) (pe_MAX_PE_RESOURCE_DIR_ENTRIES + 1).
 
 (* the self-referential table: directory 1 has e sub-directory entries that
    all point to directory 1; the root (0) has e entries pointing to 1 *)
